@@ -30,6 +30,11 @@ func runC11(w *World, r *Report) {
 	ruleFetchGate(w, r)
 	ruleUnify(w, r)
 	ruleVarNode(w, r)
+	// the evaluators hand each variable node's own keys to the fetcher and its own value to the operator
+	runC03Sites(w, r)
+	ruleStepArgs(w, r, ruleStepRes(w, r, "(*Expr).Eval"))
+	ruleFastProxy(w, r)
+	ruleCachedGet(w, r)
 }
 
 func isFieldOfParam(v ssa.Value, typeName, field string, p ssa.Value) bool {
